@@ -159,9 +159,57 @@ def correspondence(rng, tier):
     import p_C03
     r['mismatches'] += p_C03.pinned_drift()
     r['rule'] = r.get('rule', '') + '; plus complex_value_programs: complex kernel programs (functions x points around every branch cut x operand kinds, operators x operand-kind pairs, ureal x complex-literal promotion), model CKernel.v'
+    # extra_corr: plain_fallback: core functions on plain numbers are Python's own functions
     import modcorr
+    modcorr.add_to(r, plain_fallback_cases(rng, tier), 'plain_fallback', 'core.<function> applied to plain Python numbers only (int, float, complex; both orders of atan2 / pow / fmod) against math / cmath / the operators, bit for bit, same exception class')
     modcorr.add_to(r, modcorr.mod_correspondence(rng, tier, 'C01m'), 'mod_fmod', 'x % y and fmod(x, y) of uncertain reals of every structural kind (elementary, dependent, sum, scaled, declared intermediate, constant, mixed) against the model Special.v umod/ufmod (value and the three component vectors bit for bit)')
     return r
+
+PLAIN_UN = ['cos', 'sin', 'tan', 'acos', 'asin', 'atan', 'exp', 'log', 'log10', 'sqrt', 'sinh', 'cosh', 'tanh', 'acosh', 'asinh', 'atanh']
+
+def plain_fallback_cases(rng, tier):
+    """core.f applied to PLAIN Python numbers (no uncertain operand at all) must be Python's own function: math.f for
+    real arguments, cmath.f for complex ones, math.atan2 / x**y / math.fmod / abs / abs**2 / cmath.phase, same exception class
+    when Python raises.  Implementation against the language specification (bit for bit); every core function, ints, floats,
+    bools-as-ints excluded, complex numbers, argument orders of the two-argument functions."""
+    import cmath
+    from GTC import core
+    def outcome(th):
+        try:
+            v = th()
+        except Exception as ex:
+            return ('exn', type(ex).__name__)
+        if isinstance(v, complex): return ('c', v.real.hex(), v.imag.hex())
+        if isinstance(v, (int, float)): return ('r', float(v).hex(), type(v).__name__)
+        return ('other', repr(v))
+    def rnum():
+        c = rng.random()
+        if c < 0.15: return rng.choice([0, 1, -1, 2, 3, -2])
+        if c < 0.3: return rng.choice([0.0, -0.0, 1.0, -1.0, 0.5, -0.5, 2.0])
+        return round(rng.uniform(-3, 3), 3)
+    def cnum(): return complex(rnum(), rnum())
+    cases = []
+    n = 12 if tier == 'quick' else 120
+    for f in PLAIN_UN:
+        for _ in range(n):
+            x = rnum() if rng.random() < 0.7 else cnum()
+            want = (lambda f=f, x=x: getattr(cmath if isinstance(x, complex) else math, f)(x))
+            cases.append(('%s(%r)' % (f, x), (lambda f=f, x=x: getattr(core, f)(x)), want))
+    for _ in range(4 * n):
+        y, x = rnum(), rnum()
+        cases.append(('atan2(%r, %r)' % (y, x), (lambda y=y, x=x: core.atan2(y, x)), (lambda y=y, x=x: math.atan2(y, x))))
+        cases.append(('pow(%r, %r)' % (y, x), (lambda y=y, x=x: core.pow(y, x)), (lambda y=y, x=x: y ** x)))
+        cases.append(('fmod(%r, %r)' % (y, x), (lambda y=y, x=x: core.fmod(y, x)), (lambda y=y, x=x: math.fmod(y, x))))
+        z = rnum() if rng.random() < 0.5 else cnum()
+        cases.append(('magnitude(%r)' % (z,), (lambda z=z: core.magnitude(z)), (lambda z=z: abs(z))))
+        cases.append(('mag_squared(%r)' % (z,), (lambda z=z: core.mag_squared(z)), (lambda z=z: abs(z) ** 2)))
+        cases.append(('phase(%r)' % (z,), (lambda z=z: core.phase(z)), (lambda z=z: cmath.phase(z))))
+    mism = []
+    for name, got, want in cases:
+        g, w = outcome(got), outcome(want)
+        if g != w and not (g[0] == 'r' and w[0] == 'r' and g[1] == w[1]):      # int vs float of the same value is the same number
+            mism.append({'kind': 'plain-number-fallback', 'call': name, 'implementation': g, 'python': w})
+    return {'programs': len(cases), 'steps': len(cases), 'mismatches': mism[:10], 'distinct': len(set(c[0] for c in cases))}
 
 def kf_C01_intermediate_times_complex():
     import p_C03
